@@ -49,10 +49,15 @@ func init() {
 	share("C07", &RuleDoc{Name: "R-UDP-ERROR-NOT-FATAL", Text: "udpConsumer.Consume does not close the consumer on a datagram send error: one oversized packet (legal on TCP, too long for a datagram) must not end delivery of the following good packets.", Run: ruleUdpErrorNotFatal})
 	share("C06", &RuleDoc{Name: "R-WRAP-BOTH-WAYS", Text: "The 32-bit timestamp extension counts a wrap forwards and a step back across the wrap (a reordered or B-frame timestamp from before it): the wrap counter is both incremented and decremented.", Run: ruleWrapBothWays})
 	share("C06", &RuleDoc{Name: "R-MIN-PAYLOAD", Text: "The depacketisers' entry guards refuse only payloads shorter than three bytes: a three-byte unit (the H.265 access-unit delimiter) sent as its own packet is a legal single NAL unit.", Run: ruleMinPayload})
+	members := &RuleDoc{Name: "R-MEMBERS-TRACKED", Text: "multicastProxy.AddMember records the member on every path on which it returns without having failed to start the proxy - not only for the first member: the proxy stops when the LAST member leaves, and a stream end closes every member's connection.", Run: ruleMembersTracked}
+	share("C03", members)
+	share("C01", members)
 	share("C01", &RuleDoc{Name: "R-PROXY-REOPENS", Text: "multicastProxy.AddMember clears the proxy's closed flag on the path where it attaches the proxy to the stream again: a proxy that was closed when its last member left delivers again after a re-join.", Run: ruleProxyReopens})
 	addMutants(
 		&Mutant{Prop: "C06", Name: "c06-h265-min-payload-four", File: "av/format/rtp/h265_depacketizer.go",
 			Old: "\tpayload := packet.Payload()\n\tif len(payload) < 3 {", New: "\tpayload := packet.Payload()\n\tif len(payload) <= 3 {", Expect: "R-MIN-PAYLOAD"},
+		&Mutant{Prop: "C03", Name: "c03-only-first-member-tracked", File: "service/rtsp/multicast_proxy.go",
+			Old: "\t\tproxy.logger.Info(\"multicast proxy started.\")\n\t}\n\n\t// 每个成员都要登记(不仅是第一个)：最后一个成员离开时才停止代理，流结束时关闭全部成员\n\tproxy.members = append(proxy.members, m)\n", New: "\t\tproxy.members = append(proxy.members, m)\n\t\tproxy.logger.Info(\"multicast proxy started.\")\n\t}\n", Expect: "R-MEMBERS-TRACKED"},
 		&Mutant{Prop: "C01", Name: "c01-proxy-stays-closed", File: "service/rtsp/multicast_proxy.go",
 			Old: "\t\tproxy.closed = false\n", New: "", Expect: "R-PROXY-REOPENS"},
 		&Mutant{Prop: "C10", Name: "c10-segment-close-deferred", File: "av/format/hls/segmentgenerator.go",
@@ -851,5 +856,88 @@ func ruleProxyReopens(c *Ctx) {
 		c.Lost("proxy-reopens", "AddMember no longer attaches the proxy to the stream")
 	} else if ok {
 		c.OK("proxy-reopens", p.Pos(fn.Pos()), "closed flag cleared whenever the proxy is attached")
+	}
+}
+
+func ruleMembersTracked(c *Ctx) {
+	p := c.P
+	fn := p.Func("service/rtsp", "(*multicastProxy).AddMember")
+	if fn == nil {
+		c.Lost("rtsp.multicastProxy.AddMember", "not found")
+		return
+	}
+	c.touched(fname(fn))
+	// state: Empty: 0 unknown, 1 len(members)==0, 2 len(members)!=0; Added; Failed (an error was logged before returning)
+	type st struct {
+		Empty  int8
+		Added  bool
+		Failed bool
+	}
+	isLenMembers := func(v ssa.Value) bool {
+		call, ok := stripConv(v).(*ssa.Call)
+		if !ok || calleeName(&call.Call) != "builtin.len" {
+			return false
+		}
+		f, _, ok := fieldLoad(call.Call.Args[0])
+		return ok && f.Name() == "members"
+	}
+	res := RunPath(&PathRule[st]{Fn: fn, Init: []st{{}},
+		Branch: func(s st, cond ssa.Value, taken bool) (st, bool) {
+			bo, ok := cond.(*ssa.BinOp)
+			if !ok || !isLenMembers(bo.X) {
+				return s, true
+			}
+			k, ok := constInt(bo.Y)
+			if !ok || k != 0 {
+				return s, true
+			}
+			empty := false
+			switch bo.Op {
+			case token.EQL:
+				empty = taken
+			case token.NEQ, token.GTR:
+				empty = !taken
+			default:
+				return s, true
+			}
+			if empty {
+				s.Empty = 1
+			} else {
+				s.Empty = 2
+			}
+			return s, true
+		},
+		Transfer: func(s st, ins ssa.Instruction) []st {
+			if sto, ok := ins.(*ssa.Store); ok {
+				if f, _, ok := fieldAddr(sto.Addr); ok && f.Name() == "members" {
+					s.Added = true
+					return []st{s}
+				}
+			}
+			if cc := callCommon(ins); cc != nil && cc.StaticCallee() != nil {
+				n := cc.StaticCallee().Name()
+				if n == "Error" || n == "Errorf" {
+					s.Failed = true
+					return []st{s}
+				}
+			}
+			return nil
+		}})
+	c.paths += res.N
+	ok := true
+	for ret, sts := range res.Exits() {
+		for _, s := range sts {
+			if !s.Added && !s.Failed {
+				ok = false
+				which := "a path"
+				if s.Empty == 2 {
+					which = "the path of a second or later member (len(members) != 0)"
+				}
+				c.Bad("members-tracked", p.InstrPos(ret), which+" of AddMember returns without recording the member: with two multicast players the list holds only the first, so when the first leaves the proxy detaches from the stream although the second is still playing, and when the stream ends the second player's connection is never closed")
+			}
+		}
+	}
+	if ok {
+		c.OK("members-tracked", p.Pos(fn.Pos()), "every non-failing path records the member")
 	}
 }
